@@ -463,6 +463,16 @@ func c14(r *vc.Run) int {
 	})
 	// pipeline level: stages connected as in production, pause landing in the middle of hand-overs
 	c14Pipe(r, m, r.Scratch, r.Seed, r.N(7, 56), shapes)
+	// the disk watchdog as the pausing controller (real WatchDiskSpace, three pause/resume cycles), then
+	// shutdown while it still holds the pause and the disk is still low
+	for k := 0; k < r.N(1, 3); k++ {
+		res := runChild(os.Getenv("VZ_BIN"), "c18-watch", map[string]any{"stop_while_low": true}, filepath.Join(r.Scratch, fmt.Sprintf("c14-watch-%d", k)), 4*time.Minute)
+		if rep := absorb(r, m, res, "disk-watchdog", nil, true); rep != nil {
+			for d := range rep.Distinct {
+				shapes.Add("watchdog/" + d)
+			}
+		}
+	}
 	for s, n := range m.Races {
 		if s == "harness-only" {
 			r.Note("race report x%d with harness frames only", n)
